@@ -18,7 +18,7 @@ def sh(c, **kw): return subprocess.run(c, shell=True, capture_output=True, text=
 sh('git -C %s checkout -- .' % wt)
 first = open(os.path.join(src, 'demo.cpp')).readline()
 m = re.search(r'(g\+\+|clang\+\+)[^\n]*', first)
-cc = m.group(0) if m else 'g++ -std=c++17 -I%s/include demo.cpp -o demo' % wt
+cc = m.group(0).split('&&')[0].strip() if m else 'g++ -std=c++17 -I%s/include demo.cpp -o demo' % wt
 def demo(tag):
     d = '/tmp/seed-demo-%s-%s' % (name, tag); shutil.rmtree(d, ignore_errors=True); os.makedirs(d)
     shutil.copy(os.path.join(src, 'demo.cpp'), d)
